@@ -16,7 +16,7 @@ spec grammar (nested lists):
   numpy values (numpy is imported when the first of them is built):
   ["t", descr] numpy dtype (descr: a string, or a nested list for structured dtypes, see gen_np.np_dtype)
   ["g", "int64", "1"] numpy scalar np.int64(1)
-  ["N", dtype, shape, "C"|"F", seed] C- or Fortran-contiguous array with seeded content (gen_np.make)
+  ["N", dtype, shape, "C"|"F"|"Z", seed] C- or Fortran-contiguous array with seeded content (gen_np.make); "Z": all zero bytes
   a third element on D / S / F names a SUBCLASS the container is an instance of: ["D", items, "UDict"|"defaultdict"|"OrderedDict"],
   ["S", items, "USet"], ["F", items, "UFrozenSet"] (OrderedDict is always built in spec order: the order is part of its value)
 """
@@ -216,6 +216,8 @@ def build_np(spec):
     if k == "g":
         return getattr(np, spec[1])(spec[2] if spec[1] in ("str_", "bytes_") else (spec[2] == "True" if spec[1] == "bool_" else
                                     (complex(spec[2]) if spec[1].startswith("complex") else (float(spec[2]) if spec[1].startswith("float") else int(spec[2])))))
+    if spec[3] == "Z":          # all zero bytes: arrays of different dtypes / shapes with identical element bytes
+        return np.zeros(tuple(spec[2]), dtype=gen_np.np_dtype(spec[1]))
     return gen_np.make(random.Random(spec[4]), spec[1], spec[2], spec[3])[0]
 
 
@@ -239,6 +241,9 @@ def _build_pooled(spec, perm, slots, strpool):
     if k in "sy" or (k == "Z" and spec[1] in ("bytes", "zeros", "str")):
         v = build(spec)
         return strpool.setdefault((k, v), v)
+    if k == "t":
+        # equal dtype objects: one shared object here, distinct objects (for structured dtypes) in the plain build
+        return strpool.setdefault(("t", repr(spec[1])), build(spec))
     if k in "LT":
         vals = [_build_pooled(x, perm, slots, strpool) for x in spec[1]]
         return vals if k == "L" else tuple(vals)
